@@ -73,6 +73,7 @@ type World struct {
 	Scans   int
 	Log     []Action // reified history
 	Last    *ScanRecord
+	recs    []*ScanRecord
 }
 
 // exitSentinel is what logrus' Fatal turns into inside the harness.
@@ -594,6 +595,22 @@ func (w *World) Apply(a Action) (rec *ScanRecord, ok bool) {
 					keep.Spec.NodeSelector, keep.Spec.Affinity = np.Spec.NodeSelector, np.Spec.Affinity
 					w.Pods[i] = keep
 				}
+			}
+		}
+	case "clearPods": // every pod attributed to the group finishes
+		w.removeGroupPods(a.Group)
+	case "zeroOut": // every node of the group disappears (instances die, node objects go)
+		for _, name := range w.GroupNodeNames(a.Group) {
+			if n := w.K.Nodes[name]; n != nil {
+				w.A.Kill(instanceIDOf(n.Spec.ProviderID))
+				w.K.RemoveNode(name)
+				w.dropPodsOn(name)
+			}
+		}
+		if g := w.ASG(a.Group); g != nil {
+			g.Desired = g.Min
+			if int64(len(g.Instances)) > g.Desired {
+				g.Desired = int64(len(g.Instances))
 			}
 		}
 	case "clearNode": // all pods on the node finish
